@@ -542,7 +542,12 @@ def rule_r5(rep, program: Program):
                     zero = contiguous = True  # arithmetic allocates a fresh C-contiguous result
                 if isinstance(n, ast.BinOp) and isinstance(n.op, ast.Pow):
                     zero = contiguous = True
-            if any(isinstance(n, ast.Name) and n.id == prm for n in ast.walk(v)):
+            src = next((n.id for n in ast.walk(v) if isinstance(n, ast.Name) and n.id in canon), None)
+            if src is not None and not any(isinstance(n, ast.Name) and n.id == prm for n in ast.walk(v)):
+                # a further step applied to a canonical form keeps what that form already fixes
+                base = canon[src]
+                canon[st.targets[0].id] = {"dtype": base["dtype"] or fixes_dtype, "contiguous": base["contiguous"] or contiguous, "zero": base["zero"] or zero}
+            elif any(isinstance(n, ast.Name) and n.id == prm for n in ast.walk(v)):
                 canon[st.targets[0].id] = {"dtype": fixes_dtype, "contiguous": contiguous, "zero": zero}
     r.inst({"canonical forms": canon})
     full = {n for n, c in canon.items() if all(c.values())}
